@@ -435,8 +435,9 @@ func (w *World) trSpecCall(e *SExpr, env *SpecEnv) *Val {
 		return tv(w.typeTag(gt), nil)
 	case "boxRect":
 		a := w.trSpec(args[0], env)
-		s, _ := w.resolveSpecType("geometry", "Rect")
+		s, gt := w.resolveSpecType("geometry", "Rect")
 		_, it := w.resolveSpecType("geometry", "Series")
+		w.boxTags[mangle(s.String())] = w.typeTag(gt)
 		return tv(mk("box_"+mangle(s.String()), SRef, a.T), it)
 	case "unboxRect":
 		a := w.trSpec(args[0], env)
